@@ -518,6 +518,13 @@ func (c *FnCtx) useContract(fr *Frame, st *State, ct *FuncContract, callee *ssa.
 		facts = append(facts, c.evalEnsuresAtCall(post, &ct.Ensures[i], callee))
 	}
 	st.pc = c.vc.Name("pc", And(append([]Term{st.pc}, facts...)...))
+	if fr.depth == 0 && c.inSpec == 0 && blockCovers() && len(facts) > 0 {
+		// thorough tier: the callee's contract leaves an execution (a contradictory or
+		// over-strong assumed postcondition would make the rest of the path vacuous)
+		tmp := &State{pc: st.pc}
+		cv := c.addObl("vacuity", "returns:"+name, nil, tmp, TFalse, nil)
+		cv.Kind = "cover"
+	}
 	return res
 }
 
